@@ -1,7 +1,8 @@
 import TinsModel.RadioTap.Spec
+import TinsModel.RadioTap.Checked
 import Driver.Util
 /- line-protocol driver for RadioTap (property C11): model mode and spec (oracle) mode.
-   ops:  tail | new | parse <hex> | set <field> <hex> | add <bit> <hex> | ser <hex|-> -/
+   ops:  tail | new | parse <hex> | set <field> <hex> | add <bit> <hex> | ser <hex|-> | walk <hex|-> | skipto <bit> <hex|-> -/
 namespace Driver.C11
 open Tins Tins.RT Driver
 
@@ -77,8 +78,57 @@ def serLine (st : State) (inner : Bytes) : String :=
       | .fault f => s!"re=!FAULT:{f} reinner=none"
     s!"ser n={n} hdr={toHex hdr} body=inner fcs={fcs} {re}"
 
+def nsLetter : NsType → String
+  | .radiotap => "R" | .vendor => "V" | .unknown => "U"
+
+def optText : Out Bytes → String
+  | .ok d => toHex d
+  | .throw e => "!" ++ excName e
+  | .fault s => "!FAULT:" ++ s
+
+/-- `has_field()` of the 32 single-bit flags as a mask -/
+def hasFieldMask (buf : Bytes) : Out Nat :=
+  (List.range 32).foldl (fun acc b =>
+    match acc, hasFieldC buf (2 ^ b) with
+    | .ok m, .ok true => .ok (m ||| 2 ^ b)
+    | .ok m, .ok false => .ok m
+    | .ok _, .throw e => .throw e
+    | .ok _, .fault f => .fault f
+    | x, _ => x) (.ok 0)
+
+def walkLine (buf : Bytes) : String :=
+  match walkC M buf with
+  | .throw e => "throw " ++ excName e
+  | .fault f => "FAULT model:" ++ f
+  | .ok (items, c) =>
+    let fs := items.map (fun it => s!" f={it.ns}{nsLetter it.nst}:{it.bit}@{it.ptr}={optText it.opt}")
+    match advanceFieldC M c, hasFieldMask buf with
+    | .ok (c2, again), .ok mask =>
+      s!"walk{String.join fs} end adv={if again then 1 else 0} ns={c2.p.ns}{nsLetter c2.nst} hf={mask}"
+    | .fault f, _ => "FAULT model:" ++ f
+    | _, .fault f => "FAULT model:" ++ f
+    | _, _ => "throw model"
+
+def skiptoLine (bit : Nat) (buf : Bytes) : String :=
+  match mkC M buf with
+  | .throw e => "throw " ++ excName e
+  | .fault f => "FAULT model:" ++ f
+  | .ok c =>
+    match skipToFieldC M (walkFuel M) c bit with
+    | .throw e => "throw " ++ excName e
+    | .fault f => "FAULT model:" ++ f
+    | .ok (c2, r) =>
+      let opt := if r then optText (currentOptionC M c2.p) else "none"
+      s!"skipto r={if r then 1 else 0} ns={c2.p.ns}{nsLetter c2.nst} bit={c2.p.bit} off={c2.p.ptr} opt={opt}"
+
 def step (st : State) (line : String) : State × String :=
   match words line with
+  | ["walk", h] => match parseHex h with
+    | some b => (st, walkLine b)
+    | none => (st, "bad-op")
+  | ["skipto", n, h] => match n.toNat?, parseHex h with
+    | some bit, some b => (st, skiptoLine bit b)
+    | _, _ => (st, "bad-op")
   | ["tail"] => (st, "tail " ++ toHex tailBytes)
   | ["new"] => stepOut st "new" (defaultCtor M)
   | ["parse", h] => match parseHex h with
@@ -177,11 +227,142 @@ def checkSer (o : OState) (m : FMap) (inner : Bytes) (out : String) : String :=
   else if kv ow "reinner" != some "same" then "violates ser-reparse-inner"
   else "ok"
 
+/-! #### oracle of the raw parser ops (`walk`, `skipto`): what may be reported, by the radiotap standard -/
+
+structure RepItem where
+  ns : Nat
+  letter : String
+  bit : Nat
+  off : Nat
+  val : String
+
+def digitsOf (s : String) : String := String.ofList (s.toList.takeWhile Char.isDigit)
+def afterDigits (s : String) : String := String.ofList (s.toList.dropWhile Char.isDigit)
+
+/-- `f=<ns><R|V|U>:<bit>@<off>=<value>` -/
+def parseItem (tok : String) : Option RepItem :=
+  match tok.splitOn "=" with
+  | ["f", pos, val] =>
+    match pos.splitOn ":" with
+    | [nsp, r] =>
+      match r.splitOn "@" with
+      | [b, o] =>
+        match (digitsOf nsp).toNat?, b.toNat?, o.toNat? with
+        | some ns, some bit, some off => some { ns := ns, letter := afterDigits nsp, bit := bit, off := off, val := val }
+        | _, _, _ => none
+      | _ => none
+    | _ => none
+  | _ => none
+
+def stdLetter (n : Nat) : String := if n == 0 then "R" else if n == 1 then "V" else "U"
+
+def showStd (ns : Nat) (l : String) (it : StdItem) : String :=
+  s!"f={ns}{l}:{it.bit}@{it.off}=" ++ (match it.val with | some v => toHex v | none => "!malformed_packet")
+
+def getLast (ws : List Nat) : Nat := ws.getLastD 0
+
+/-- the fields a parser has to report on `buf` with present words `ws`, as far as the standard fixes them for a parser
+    that knows the fields below `S.max` only: the fields of the first word; then — if there are further words,
+    the first one has a defined field and no undefined one, the words in between announce no data, and the last
+    word is announced as a radiotap-namespace word — the fields of the last word.  `none` = not fixed. -/
+def stdWalk (buf : Bytes) (ws : List Nat) : List String × Option (List String) :=
+  let w0 := ws.headD 0
+  let k := ws.length - 1
+  let r0 := stdFieldsOf S buf w0 S.max 0 (4 * ws.length)
+  let first := r0.1.map (showStd 0 "R")
+  if k == 0 then (first, some []) else
+  if !r0.2.2 then (first, some []) else          -- the first word's fields already run out of the buffer
+  let undefined0 := w0 % 536870912 / 2 ^ S.max != 0
+  let middle := (ws.drop 1).dropLast
+  let before := if k == 1 then w0 else middle.getLastD 0
+  if r0.1.isEmpty || undefined0 || middle.any (fun w => w % 536870912 != 0) || stdNsAfter before != 0 then (first, none)
+  else
+    let rk := stdFieldsOf S buf (getLast ws) S.max 0 r0.2.1
+    (first, some (rk.1.map (showStd k "R")))
+
+def checkWalk (buf : Bytes) (out : String) : String :=
+  if out.startsWith "FAULT" then "violates parser-no-fault" else
+  let chain := if buf.isEmpty then some [] else stdChain (buf.length / 4 + 1) buf 0
+  match chain with
+  | none => if out == "throw malformed_packet" then "ok" else s!"violates parser-rejects-broken-chain"
+  | some ws =>
+    if out.startsWith "throw" then s!"violates parser-accepts-chain {out}" else
+    let toks := words out
+    if toks.contains "runaway" then "violates parser-terminates" else
+    let items := toks.filterMap parseItem
+    if items.length != (toks.filter (·.startsWith "f=")).length then "violates parser-report-format" else
+    let k := ws.length - 1
+    -- (a) every reported field is there: known bit, set in the present word of its namespace, aligned, inside the
+    --     buffer, value = the bytes at that offset, offsets ascending without overlap
+    let sound := items.all (fun it =>
+      it.bit < S.max && (it.ns == 0 || it.ns == k) && (ws.getD it.ns 0) / 2 ^ it.bit % 2 == 1 &&
+      (it.off + 4) % S.align it.bit == 0 && it.off < buf.length && it.off ≥ 4 * ws.length &&
+      it.val == (if it.off + S.size it.bit ≤ buf.length then toHex ((buf.drop it.off).take (S.size it.bit)) else "!malformed_packet"))
+    let rec ascending : List RepItem → Bool
+      | a :: b :: r => a.off + S.size a.bit ≤ b.off && (a.ns < b.ns || (a.ns == b.ns && a.bit < b.bit)) && ascending (b :: r)
+      | _ => true
+    if !sound then "violates parser-reports-only-present-fields" else
+    if !ascending items then "violates parser-report-order" else
+    -- (b) namespace letters: first namespace radiotap, a later one as announced by the word before it
+    let before := if k ≤ 1 then ws.headD 0 else ((ws.drop 1).dropLast).getLastD 0
+    let letterOk := items.all (fun it => it.letter == (if it.ns == 0 then "R" else stdLetter (stdNsAfter before)))
+    let endNs := (kv toks "ns").getD ""
+    let endOk := endNs == "0R" || (k > 0 && endNs == s!"{k}{stdLetter (stdNsAfter before)}")
+    if !(letterOk && endOk) then s!"violates parser-namespace-type expected={stdLetter (stdNsAfter before)} got={endNs}" else
+    -- (c) completeness where the standard fixes the layout
+    let (first, later) := stdWalk buf ws
+    let rep0 := (items.filter (·.ns == 0)).map (fun it => s!"f=0R:{it.bit}@{it.off}={it.val}")
+    let repk := (items.filter (fun it => it.ns != 0)).map (fun it => s!"f={it.ns}{it.letter}:{it.bit}@{it.off}={it.val}")
+    if rep0 != first then s!"violates parser-first-namespace expected={joinWith "," first}" else
+    let laterOk := match later with
+      | some l => repk == l || (first.isEmpty && repk.isEmpty)
+      | none => true
+    if !laterOk then s!"violates parser-later-namespace expected={joinWith "," (later.getD [])}" else
+    -- (d) has_field: only bits some present word has; every bit of a word that is followed by further bytes
+    let mask := ((kv toks "hf").getD "0").toNat?.getD 0
+    let anyWord := ws.foldl (· ||| ·) 0
+    let seen := (ws.zipIdx.filter (fun wi => 4 * wi.2 + 4 < buf.length)).foldl (fun acc wi => acc ||| wi.1) 0
+    if mask &&& anyWord != mask then s!"violates has_field-only-present got={mask}" else
+    if seen &&& mask != seen then s!"violates has_field-all-present expected={seen} got={mask}" else "ok"
+
+def checkSkipto (bit : Nat) (buf : Bytes) (out : String) : String :=
+  if out.startsWith "FAULT" then "violates parser-no-fault" else
+  let chain := if buf.isEmpty then some [] else stdChain (buf.length / 4 + 1) buf 0
+  match chain with
+  | none => if out == "throw malformed_packet" then "ok" else s!"violates parser-rejects-broken-chain"
+  | some ws =>
+    if out.startsWith "throw" then s!"violates parser-accepts-chain {out}" else
+    let toks := words out
+    let (first, later) := stdWalk buf ws
+    let pick (l : List String) : Option String := l.find? (fun t => (t.splitOn ":").getD 1 "" |>.startsWith s!"{bit}@")
+    let expect : Option (Option String) :=      -- some none = not found; none = not fixed by the standard
+      match pick first, later with
+      | some t, _ => some (some t)
+      | none, some l => if first.isEmpty && ws.length > 1 then none else some (pick l)
+      | none, none => none
+    match expect with
+    | none => "unspecified"
+    | some none => if kv toks "r" == some "0" then "ok" else "violates skip_to_field-finds-absent-field"
+    | some (some t) =>
+      -- t = f=<ns><L>:<bit>@<off>=<val>
+      match parseItem t with
+      | some it =>
+        if kv toks "r" == some "1" && kv toks "bit" == some (toString bit) && kv toks "off" == some (toString it.off)
+            && kv toks "opt" == some it.val && ((kv toks "ns").getD "").startsWith (toString it.ns)
+        then "ok" else s!"violates skip_to_field expected={t}"
+      | none => "bad-oracle"
+
 /-- spec mode: each input line is `<op> ||| <implementation output>` -/
 def specStep (st : OState) (line : String) : OState × String :=
   match line.trimAscii.toString.splitOn " ||| " with
   | [op, out] =>
     match words op with
+    | ["walk", h] => match parseHex h with
+      | some b => (st, checkWalk b out)
+      | none => (st, "unspecified")
+    | ["skipto", n, h] => match n.toNat?, parseHex h with
+      | some bit, some b => (st, if bit < S.max then checkSkipto bit b out else "unspecified")
+      | _, _ => (st, "unspecified")
     | ["tail"] => (st, "ok")
     | ["new"] =>
       let st' : OState := { ws := some defaultWrites }
